@@ -74,9 +74,32 @@ macro_rules! dispatch {
         match $t {
             $($name => like_ops::<$ty>($name, $mode, $args),)*
             "ALL" => { $(like_ops::<$ty>($name, $mode, $args);)* }
-            other => panic!("unknown type {}", other),
+            other => {
+                if !astro_dispatch(other, $mode, $args) { panic!("unknown type {}", other) }
+            }
         }
     };
+}
+
+#[cfg(feature = "astro")]
+fn astro_dispatch(t: &str, mode: &str, args: &[String]) -> bool {
+    match t {
+        "astro::Mass" => like_ops::<astronomical_quantities::Mass>(t, mode, args),
+        "astro::Length" => like_ops::<astronomical_quantities::Length>(t, mode, args),
+        "astro::Duration" => like_ops::<astronomical_quantities::Duration>(t, mode, args),
+        "astro::Speed" => like_ops::<astronomical_quantities::Speed>(t, mode, args),
+        "ASTRO" => {
+            for n in ["astro::Mass", "astro::Length", "astro::Duration", "astro::Speed"] {
+                astro_dispatch(n, mode, args);
+            }
+        }
+        _ => return false,
+    }
+    true
+}
+#[cfg(not(feature = "astro"))]
+fn astro_dispatch(_t: &str, _mode: &str, _args: &[String]) -> bool {
+    false
 }
 
 fn main() {
